@@ -16,7 +16,7 @@ storage of the path (Storage.tla).
                loaded) are validated by StorageTrace.tla:
                  Inv_C07_Storage/storage-model    -> reported by C07
                  Inv_C06_NoMissed/storage-model   -> reported by C06
- Memory.tla  : MemoryMC - every history of up to 4 calls (store / load / slice / entries) over offsets of which two pairs
+ Memory.tla  : MemoryMC - every history of up to 5 (thorough: 6) calls (store / load / slice / entries) over offsets of which two pairs
                agree modulo 2^64: the memory agrees, offset by offset, with a concrete one (a load returns the last value
                stored at exactly that offset, or zero; a store is local; reads are invisible).  Random histories on the
                real `Memory` over offsets that agree in their low 16 / 32 / 41 / 63 / 64 / 65 / 128 / 255 bits, pushed or
@@ -79,7 +79,7 @@ def run(tier, seed):
                         break
         viol.append({"inv": x["inv"], "record": rec, "history": hist[-40:], "component": "storage"})
     # --- memory
-    mmc = run_tlc("MemoryMC", workers=4, timeout=600, name="MemoryMC")
+    mmc = run_tlc("MemoryMC", cfg="MemoryMCFull.cfg" if tier == "thorough" else "MemoryMC.cfg", workers=4, timeout=900, name="MemoryMC")
     tlc_must_pass(mmc, "MemoryMC")
     mp = os.path.join(wd, "memory.ndjson")
     p3 = harness(["memory-trace", "--seed", seed, "--runs", 400 if tier == "thorough" else 80, "--len", 150, "--out", mp], timeout=1200)
